@@ -391,7 +391,15 @@ Definition step10 (b : bscen) (s : b10) (e : bev) : b10 :=
                             | Some p => pst_agrees (pz s p) (rcode_eqb r RPoisoned)
                             | None => rcode_eqb r ROk
                             end in
-                mkb10 (pz s) (upd (gcoll s) t (Some (c, m))) (calls10 s) (ok10 s && good)
+                (* a SHARED guard that its thread will end by a panic: PoisonRef::drop sets the flag before it releases, and
+                   other readers can come in between — from here on what they see is left open *)
+                let ends_in_panic := match nth_error (nth t (bs_progs b) []) (S (calls10 s t)) with
+                                     | Some APanic => true | _ => false end in
+                let ps := match m with
+                          | Sh => if ends_in_panic then upd_all (pz s) (pids_of sc c) (pst_after_panic Sh) else pz s
+                          | Ex => pz s
+                          end in
+                mkb10 ps (upd (gcoll s) t (Some (c, m))) (calls10 s) (ok10 s && good)
             | _ => s
             end
         | Some APanic =>
